@@ -326,6 +326,8 @@ type fakeNet struct {
 	dial      func(p *simPeer, part string) error      // NewStream failure
 	onRequest func(s *cliStream)                        // the request is complete (CloseWrite)
 	onDialFail func(p *simPeer)                         // NewStream is about to return an error
+	onOpen    func(p *simPeer, part string)             // NewStream succeeded
+	lin       *sync.Mutex                               // held across NewStream's context check and its event
 	onNoPeers func()                                    // Peers() answers with nobody but self
 }
 
@@ -394,7 +396,12 @@ func (n *fakeNet) NewStream(ctx context.Context, p peer.ID, pids ...protocol.ID)
 	seq := n.nOpen
 	dial := n.dial
 	odf := n.onDialFail
+	oo, lin := n.onOpen, n.lin
 	n.mu.Unlock()
+	if lin != nil {
+		lin.Lock()
+		defer lin.Unlock()
+	}
 	if err := ctx.Err(); err != nil { // libp2p does not dial on a cancelled context
 		if odf != nil && sp != nil {
 			odf(sp)
@@ -421,6 +428,9 @@ func (n *fakeNet) NewStream(ctx context.Context, p peer.ID, pids ...protocol.ID)
 	n.mu.Lock()
 	n.open[s] = true
 	n.mu.Unlock()
+	if oo != nil {
+		oo(sp, part)
+	}
 	return s, nil
 }
 
